@@ -4,10 +4,12 @@ cd "$(dirname "$0")/.." || exit 2
 tier=${1:-quick}
 W=/tmp/seedrepo.$$
 git -C /repo worktree add -q --detach "$W" HEAD || exit 2
-for d in seeded/*/; do
+for d in ${SEEDS:-seeded/*/}; do
   id=$(basename "$d" | cut -d- -f1)
   printf '%s: ' "$(basename "$d")"
-  tools/seedtest.py "$d" "$id" --repo "$W" --tier "$tier" 2>&1 | grep -v Warn | grep "^check\|PASSES\|FAIL rc\|does not apply" | cut -c1-160 | tr '\n' ' '
+  extra=""
+  [ -f "$d/checks.txt" ] && extra="--checks $(cat "$d/checks.txt")"
+  tools/seedtest.py "$d" "$id" --repo "$W" --tier "$tier" $extra 2>&1 | grep -v Warn | grep "^check\|PASSES\|FAIL rc\|does not apply" | cut -c1-160 | tr '\n' ' '
   echo
 done
 git -C /repo worktree remove --force "$W"
